@@ -103,10 +103,10 @@ theorem alpha_not_space {c : Char} (h : c.isAlpha = true) : isSpace c = false :=
 theorem nextTok_key (a : Char) (k v : List Char) (ha : a.isAlpha = true) (hk : ∀ c ∈ a :: k, isKeyChar c = true) :
     nextTok (a :: k ++ ' ' :: v) = .tok (.key (a :: k)) (' ' :: v) := by
   have hs : spanP isKeyChar (a :: k ++ ' ' :: v) = (a :: k, ' ' :: v) := span_stop (a :: k) ' ' v hk (by decide)
-  have hsp : isSpace ' ' = true := by decide
+  have hw : isWordChar ' ' = false := by decide
   simp only [nextTok, mKey, List.cons_append, ha, if_true]
   simp only [List.cons_append] at hs
-  simp [hs]
+  simp [hs, hw]
 
 /-- a line `    <key> <value>` where `<value>` is one token that ends the line -/
 theorem tokLoop_kv_line (a : Char) (k : List Char) (c : Char) (v : List Char) (t : Token) (f : Nat)
